@@ -206,13 +206,33 @@ def parse_event(surface, q, kb, csv, export=False, given=None):
     return e, req
 
 
-def render_event(m, cl, prefix):
+# to_query_str takes "a str or something that can be converted into a str": the objects whose documented
+# rendering (str(); 'true'/'false' for a bool) is the text the specification's mapping holds
+TYPED = {'1e+16': 1e16, '1e+100': 1e100, '-1e-07': -1e-7, 'inf': float('inf'), 'nan': float('nan'), '-3': -3,
+         '18446744073709551616': 2 ** 64, '1.5': 1.5, '0': 0, '1': 1, '12': 12, '-0.0': -0.0, '1e-05': 1e-5,
+         '9223372036854775808': 2 ** 63, '-1e+22': -1e22, '1.7976931348623157e+308': 1.7976931348623157e308}
+for _k, _v in TYPED.items():
+    assert str(_v) == _k, (_k, _v)
+TYPED_SCALAR_ONLY = {'true': True, 'false': False}      # (inside a comma-delimited list a bool renders as str(): 'True')
+
+
+def typed_value(text, scalar):
+    if scalar and text in TYPED_SCALAR_ONLY:
+        return TYPED_SCALAR_ONLY[text]
+    return TYPED.get(text, text)
+
+
+def render_event(m, cl, prefix, typed=False):
+    """to_query_str on the mapping m.  typed: numbers and booleans are passed as objects, not as their text."""
     import falcon
     d = {}
     for ent in m:
-        d[txt(ent['k'])] = txt(ent['v'][0]) if ent['shape'] == 'scalar' else [txt(x) for x in ent['v']]
+        vs = [txt(x) for x in ent['v']]
+        if typed:
+            vs = [typed_value(x, ent['shape'] == 'scalar') for x in vs]
+        d[txt(ent['k'])] = vs[0] if ent['shape'] == 'scalar' else vs
     e = {'op': 'render', 'q': [], 'kb': False, 'csv': False, 'entries': [], 'err': False, 'export': False,
-         'm': m, 'cl': cl, 'prefix': prefix}
+         'm': m, 'cl': cl, 'prefix': prefix, 'shown': repr(d)[:200], 'meta': {'typed': typed}}
     try:
         s = falcon.to_query_str(d, comma_delimited_lists=cl, prefix=prefix)
         if not isinstance(s, str):
@@ -414,9 +434,10 @@ def report_getter(ctx, clause, e, origin):
 
 
 def report_render(ctx, clause, e, origin):
-    case = {'kind': 'render', 'm': e['m'], 'cl': e['cl'], 'prefix': e['prefix'], 'origin': origin}
+    case = {'kind': 'render', 'm': e['m'], 'cl': e['cl'], 'prefix': e['prefix'], 'origin': origin,
+            'typed': e.get('meta', {}).get('typed', False)}
     what = 'to_query_str(%s, comma_delimited_lists=%s, prefix=%s) -> %r %s' % (
-        [(txt(x['k']), [txt(v) for v in x['v']], x['shape']) for x in e['m']], e['cl'], e['prefix'],
+        e.get('shown') or [(txt(x['k']), [txt(v) for v in x['v']], x['shape']) for x in e['m']], e['cl'], e['prefix'],
         txt(e['q']), e.get('exc', ''))
     if clause.startswith('D:'):
         ctx.detail(clause, case, what)
@@ -578,26 +599,26 @@ def run(ctx):
     rendered = {}
     for c in rt.json:
         if c['phase'] == 'rendered':
-            for prefix in (False, True):
-                e, d = render_event(c['m'], c['cl'], prefix)
+            hastyped = any(txt(x) in TYPED or txt(x) in TYPED_SCALAR_ONLY for ent in c['m'] for x in ent['v'])
+            for prefix, as_obj in ((False, False), (True, False)) + (((False, True), (True, True)) if hastyped else ()):
+                e, d = render_event(c['m'], c['cl'], prefix, as_obj)
                 nren += 1
-                ctx.case({'m': c['m'], 'cl': c['cl']}, nontrivial=True, key=('r', digest(c['m']), c['cl'], prefix))
+                ctx.case({'m': c['m'], 'cl': c['cl']}, nontrivial=True, key=('r', digest(c['m']), c['cl'], prefix, as_obj))
                 want = ([63] if prefix and c['q'] else []) + c['q']
                 if e['err'] or e['q'] != want:
                     rsus.append(e)
                 if not prefix and not e['err']:
-                    rendered[(digest(c['m']), c['cl'])] = txt(e['q'])
+                    rendered.setdefault((digest(c['m']), c['cl']), []).append(txt(e['q']))
     for c in rt.json:
         if c['phase'] == 'reparsed':
-            s = rendered.get((digest(c['m']), c['cl']))
-            if s is None:
-                continue
-            # the property names both ends: falcon renders, falcon reads back; TLC says what must come back
-            e, _ = parse_event('func', s, c['kb'], c['csv'])
-            nren += 1
-            ctx.case(None, nontrivial=True, key=('rr', digest(c['m']), c['cl'], c['kb'], c['csv']))
-            if e['err'] or e['entries'] != c['entries']:
-                rtsus.append((e, c['m']))
+            # the property names both ends: falcon renders (values as text, and as objects), falcon reads back;
+            # TLC says what must come back
+            for s in dict.fromkeys(rendered.get((digest(c['m']), c['cl']), ())):
+                e, _ = parse_event('func', s, c['kb'], c['csv'])
+                nren += 1
+                ctx.case(None, nontrivial=True, key=('rr', digest(c['m']), c['cl'], c['kb'], c['csv'], s))
+                if e['err'] or e['entries'] != c['entries']:
+                    rtsus.append((e, c['m']))
     if rtsus:
         vs, _ = judge_each(ctx, 'QueryStringTrace', [e for e, _ in rtsus[:600]], per=10)
         for (e, m), v in zip(rtsus, vs):
@@ -839,7 +860,8 @@ def run(ctx):
 
     # random mappings through to_query_str, judged (alphabet, round trip by the reference reading)
     mnames = ['a', 'b c', 'é', 'k=', 'x&y', '%41', 'n,', '~-._', 'a/b?c#d']
-    mvals = ['', '1', 'a,b', '&=', '%41+ ', 'é', ',', '😀', 'x y', '%', '~', '\x00', 'a=b&c=d', '+', 'A-Z_a.z~']
+    mvals = ['', '1', 'a,b', '&=', '%41+ ', 'é', ',', '😀', 'x y', '%', '~', '\x00', 'a=b&c=d', '+', 'A-Z_a.z~'] + \
+        list(TYPED) + list(TYPED_SCALAR_ONLY)
     revents = []
     for i in range(ctx.pick(300, 6000)):
         m = []
@@ -848,7 +870,7 @@ def run(ctx):
                 m.append({'k': cps(k), 'v': [cps(rng.choice(mvals))], 'shape': 'scalar'})
             else:
                 m.append({'k': cps(k), 'v': [cps(rng.choice(mvals)) for _ in range(rng.randint(0, 4))], 'shape': 'list'})
-        e, d = render_event(m, rng.random() < 0.5, rng.random() < 0.5)
+        e, d = render_event(m, rng.random() < 0.5, rng.random() < 0.5, typed=rng.random() < 0.6)
         revents.append(e)
         ctx.case({'m': m, 'cl': e['cl']}, nontrivial=True, key=('rm', digest(m), e['cl'], e['prefix']))
         if not e['err']:
@@ -1060,7 +1082,7 @@ def replay(ctx, case):
             if vs[0] != 'ok':
                 report_getter(ctx, vs[0], g, 'replay')
     elif kind == 'render':
-        e, d = render_event(case['m'], case['cl'], case['prefix'])
+        e, d = render_event(case['m'], case['cl'], case['prefix'], case.get('typed', False))
         vs, _ = judge_each(ctx, 'QueryStringTrace', [e], per=1)
         print('to_query_str(%r) -> %r: %s' % (d, txt(e['q']), vs[0]))
         if vs[0] != 'ok':
